@@ -34,19 +34,20 @@ theorem c03_effect_only_if (w : W) (p : Nat) (d : Dg) (hch : (processCmd w p d).
     output of the step — over all connections — is exactly one error result to the writer: no subscriber is
     notified. Every member. -/
 theorem c03_denied_is_silent (w : W) (p : Nat) (d : Dg) (lf : LF) (rf : RF) (hsrc : srcF w p d = some rf)
-    (hdst : dstF w d = some lf) (hw : d.cls = .write) (hg : gateOk w p lf d = false) :
-    (processCmd w p d).1.written = w.written ∧ (processCmd w p d).2 = [(p, res d 1)] :=
-  Spine.Disp.c03_denied_is_silent w p d lf rf hsrc hdst hw hg
+    (hdst : dstF w d = some lf) (hw : d.cls = .write) (hg : gateOk w p lf d = false) (hnc : NoCrash w d) :
+    (processCmd w p d).1.written = w.written ∧ (processCmd w p d).1.data = w.data ∧
+      (processCmd w p d).2 = [(p, res d 1)] :=
+  Spine.Disp.c03_denied_is_silent w p d lf rf hsrc hdst hw hg hnc
 
 /-- Accepted: a write that passes the gate, of a function the feature holds, with a payload the update engine
     accepts (`bad = false`), is applied; exactly the subscribers of
     the written feature are notified, once each; the writer gets exactly the requested acknowledgement. -/
 theorem c03_accepted (w : W) (p : Nat) (d : Dg) (lf : LF) (rf : RF) (hsrc : srcF w p d = some rf)
     (hdst : dstF w d = some lf) (hw : d.cls = .write) (hg : gateOk w p lf d = true) (hnm : lf.nm = false)
-    (hf : lf.fds.contains d.fn = true) (hb : d.bad = false) :
+    (hf : lf.fds.contains d.fn = true) (hb : d.bad = false) (hnc : NoCrash w d) :
     (processCmd w p d).1.written = (d.dst, d.fn) :: w.written ∧
       (processCmd w p d).2 = notifs w d ++ (if d.ack then [(p, res d 0)] else []) :=
-  Spine.Disp.c03_accepted w p d lf rf hsrc hdst hw hg hnm hf hb
+  Spine.Disp.c03_accepted w p d lf rf hsrc hdst hw hg hnm hf hb hnc
 
 /-- The gate is a function of the current registry: open iff writable and bound. -/
 theorem c03_gate_iff (w : W) (p : Nat) (lf : LF) (d : Dg) :
@@ -121,14 +122,14 @@ def exW : W :=
     binds := [(([1], 1), 1, ([1], 1))], subs := [(([1], 1), 2, ([1], 1))] }
 
 example :
-    (processCmd exW 2 (witD ([1], 1))).2 = [(2, .result 50 1 ([1], 1) ([1], 1))] ∧
+    (processCmd exW 2 (witD ([1], 1))).2 = [(2, .result (some 50) 1 ([1], 1) ([1], 1) (some 0))] ∧
     (processCmd exW 2 (witD ([1], 1))).1.written = [] ∧
-    (processCmd exW 1 (witD ([1], 1))).2 = [(2, .notify 5 ([1], 1) ([1], 1)), (1, .result 50 0 ([1], 1) ([1], 1))] ∧
+    (processCmd exW 1 (witD ([1], 1))).2 = [(2, .notify 5 ([1], 1) ([1], 1) 7), (1, .result (some 50) 0 ([1], 1) ([1], 1) (some 0))] ∧
     (processCmd exW 1 (witD ([1], 1))).1.written = [(([1], 1), 5)] := by decide
 
 /-- a write that passes the gate but whose payload the update engine rejects (`bad`) is as silent as a denied one -/
 example :
-    (processCmd exW 1 { witD ([1], 1) with bad := true }).2 = [(1, .result 50 1 ([1], 1) ([1], 1))] ∧
+    (processCmd exW 1 { witD ([1], 1) with bad := true }).2 = [(1, .result (some 50) 1 ([1], 1) ([1], 1) (some 0))] ∧
     (processCmd exW 1 { witD ([1], 1) with bad := true }).1.written = [] := by decide
 
 end Spine.Props.C03
